@@ -60,10 +60,11 @@ type State struct {
 	regs   map[ssa.Value]*Val
 	heap   map[string]string
 	defers []deferred
+	acq    *State // snapshot at the first lock acquisition on this path (two-state `old` of atomic functions)
 }
 
 func (s *State) clone() *State {
-	n := &State{pc: s.pc, locals: make(map[*ssa.Alloc][]string, len(s.locals)), regs: make(map[ssa.Value]*Val, len(s.regs)), heap: make(map[string]string, len(s.heap))}
+	n := &State{acq: s.acq, pc: s.pc, locals: make(map[*ssa.Alloc][]string, len(s.locals)), regs: make(map[ssa.Value]*Val, len(s.regs)), heap: make(map[string]string, len(s.heap))}
 	for k, v := range s.locals {
 		n.locals[k] = v
 	}
@@ -297,16 +298,22 @@ func (e *Engine) typeAssume(st *State, t types.Type, leaves []string) {
 		switch l.Sort {
 		case SInt:
 			if l.Part == "off" || l.Part == "len" {
-				cs = append(cs, "(<= 0 "+x+")")
+				cs = append(cs, "(<= 0 "+x+")", "(<= "+x+" 9223372036854775807)")
 				continue
 			}
 			if lo, hi, ok := intRange(l.T); ok && l.Part == "" {
 				cs = append(cs, "(<= "+lo+" "+x+")", "(<= "+x+" "+hi+")")
 				continue
 			}
-			switch l.T.Underlying().(type) {
+			switch pt := l.T.Underlying().(type) {
 			case *types.Pointer, *types.Map, *types.Chan, *types.Slice:
 				cs = append(cs, "(<= 0 "+x+")", "(<= "+x+" "+e.heapGet(st, e.keyAlloc())+")")
+				if p, ok := pt.(*types.Pointer); ok {
+					if k := e.keyIsA(p.Elem()); k != "" {
+						// type safety: a non-nil *T points to an allocated T
+						cs = append(cs, implies(not(eq(x, "0")), sel(e.heapGet(st, k), x)))
+					}
+				}
 			case *types.Interface, *types.Signature:
 				cs = append(cs, "(<= 0 "+x+")")
 			}
@@ -517,6 +524,9 @@ func (e *Engine) mergeStates(ins []*State) *State {
 	pcs := make([]string, len(ins))
 	for i, s := range ins {
 		pcs[i] = s.pc
+		if out.acq == nil {
+			out.acq = s.acq
+		}
 	}
 	out.pc = e.c.defineAlways("pc", SBool, or(pcs...))
 	mergeTerm := func(ts []string, sort Sort, hint string) string {
@@ -727,4 +737,20 @@ func (e *Engine) countLemmaUpdate(st *State, m *types.Map, d0, a0, d1, a1, key, 
 	}
 	e.assume(st, fmt.Sprintf("(forall ((s!q %s)) (! (and (= (%s %s %s s!q) (+ (- (%s %s %s s!q) %s) %s)) (>= (%s %s %s s!q) 0)) :pattern ((%s %s %s s!q))))",
 		vs, f, d1, a1, f, d0, a0, had, add, f, d0, a0, f, d1, a1))
+}
+
+// keyIsA: the allocation set of a tracked struct type ("" if the type is not tracked).
+func (e *Engine) keyIsA(t types.Type) string {
+	n, ok := t.(*types.Named)
+	if !ok || n.Obj().Pkg() == nil {
+		return ""
+	}
+	if !e.w.spec.Tracked[n.Obj().Pkg().Path()+"."+n.Obj().Name()] {
+		return ""
+	}
+	k := "X|isA|" + typeKey(t)
+	if _, ok := e.heapInfo[k]; !ok {
+		e.regHeap(k, arrSort(SInt, SBool), "isA_"+shortTypeName(t), "X", nil)
+	}
+	return k
 }
